@@ -333,14 +333,17 @@ func floatGFormat(f px.Format, value float64) string {
 	if f.FormatChar() == 'G' {
 		sc = 'E'
 	}
-	if strings.IndexByte(str, sc) >= 0 {
-		// Scientific notation in use.
+	if strings.IndexByte(str, sc) >= 0 || math.IsNaN(value) || math.IsInf(value, 0) {
+		// Scientific notation in use, or nothing to restore
 		return padFloat(f, str)
 	}
 
 	// Go might strip both trailing zeroes and decimal point when using '%g'. The
 	// decimal point and trailing zeroes are restored here
 	totLen := len(str)
+	if str[0] == '-' || str[0] == '+' || str[0] == ' ' {
+		totLen-- // the sign is not a digit
+	}
 	prc := f.Precision()
 	if prc < 0 && !f.IsAlt() {
 		prc = 6
